@@ -13,7 +13,9 @@ EXPLANATION = (
     "(R02.2) span search and single-function evaluation use the right-continuous convention (ordering enumeration of the "
     "comparisons), with the right end point special cases; (R02.3) all routes derive the first active index as span - p, build "
     "identical COO patterns and share one evaluation kernel; KnotVector.findspan delegates to that kernel or, if written in "
-    "Python, clamps to the last non-empty span len(kv)-p-2 (compared as an affine form). Necessary conditions only.")
+    "Python, clamps to the last non-empty span len(kv)-p-2 (compared as an affine form); the vectorised span search carries no "
+    "state from one node to the next; (R02.4) zero shortcuts for high derivative orders apply only above the degree, and the "
+    "Cython kernels contain no comparison with a tiny absolute tolerance. Necessary conditions only.")
 DOES_NOT_DECIDE = "agreement with the Cox-de Boor recursion, non-negativity, partition of unity, vanishing derivatives of order > p"
 TECHNIQUE = "affine index algebra + Fourier-Motzkin bound proofs on the lowered Cython tree; ordering enumeration of comparisons; sibling comparison"
 ASSUMPTIONS = ["pyx_findspan returns span with p <= span <= len(kv)-p-2 (its documented contract; holds for open knot vectors and u in the domain)",
